@@ -143,3 +143,17 @@ Example ex_header :
   exists o, osm_unmarshal (JObj [("zzz", JNum 1 0); ("version", JNum 6 1); ("elements", JArr [])]) = Ok o
             /\ o_version o = "0.6" /\ o_generator o = "".
 Proof. eexists. split; [vm_compute; reflexivity|split; reflexivity]. Qed.
+
+(* keys are matched the way encoding/json does: exactly or up to ASCII case, the last entry
+   wins (so Overpass's lowercase per-element bounds reach the untagged Bounds struct) *)
+Example ex_case_folding :
+  exists o w, osm_unmarshal
+      (JObj [("Version", JStr "0.6"); ("version", JNull); ("ELEMENTS",
+         JArr [JObj [("Id", JNum 9 0); ("TYPE", JStr "way"); ("id", JNum 7 0);
+                     ("bounds", JObj [("minlat", JNum 1 0); ("minlon", JNum 2 0);
+                                      ("maxlat", JNum 3 0); ("maxlon", JNum 4 0)])]])]) = Ok o
+    /\ o_version o = "0.6" /\ o_ways o = [w]
+    /\ nth_error (match w with VStruct l => l | _ => [] end) 1 = Some (VInt 7)
+    /\ nth_error (match w with VStruct l => l | _ => [] end) 12
+       = Some (VSome (VStruct [VFloat 1 0; VFloat 3 0; VFloat 2 0; VFloat 4 0])).
+Proof. eexists. eexists. split; [vm_compute; reflexivity|]. repeat split. Qed.
